@@ -181,7 +181,10 @@ def c07_5(ctx, ss):
         if not _direct_find_data(flow.expand(lp.iter)):
             ctx.violation("C07.5", k, where(ff, lp), f"{q}: statements are not visited in document order (`{txt(lp.iter)}`)")
             continue
-        bad = [c for c in pf.calls_in(lp) if isinstance(c.func, ast.Attribute) and c.func.attr == "setdefault"]
+        # setdefault(key, VALUE) keeps the first declaration; setdefault(group, {}) merely opens a group and is fine
+        from ..core.normalise import _empty_container
+        bad = [c for c in pf.calls_in(lp) if isinstance(c.func, ast.Attribute) and c.func.attr == "setdefault"
+               and not (len(c.args) == 2 and _empty_container(c.args[1]) and isinstance(c.func.value, ast.Name))]
         # inner stores must not be guarded by "inner key not in"
         inner_guard = False
         for s in pf.iter_stmts(lp.body):
@@ -395,7 +398,20 @@ def _chain(fnode: ast.FunctionDef, param: str) -> list[str]:
 
 
 def c07_6(ctx, ss):
-    for q, want in (("get_jetset_definitions.to_int_or_float", ["int", "float", "id"]), ("_str_or_float", ["float", "id"])):
+    # the JetSet value converter is found by its role: the user function applied to the value token (2nd child) of a
+    # jetset_def statement — nested in the accessor or a private module-level helper
+    jf, jflow = fn(ss, DEC, "get_jetset_definitions")
+    mfx = pf.module_facts(ss, DEC)
+    conv_names = []
+    for c in pf.calls_in(jf.node, nested=False):
+        if isinstance(c.func, ast.Name) and c.func.id not in ("int", "float", "str") and len(c.args) == 1 and txt(jflow.expand(c.args[0])).endswith(".children[1].value"):
+            qn = f"get_jetset_definitions.{c.func.id}" if f"get_jetset_definitions.{c.func.id}" in mfx.funcs else c.func.id
+            if qn in mfx.funcs and qn not in conv_names:
+                conv_names.append(qn)
+    if len(conv_names) != 1:
+        raise AnchorMissing(f"get_jetset_definitions: the function converting the value token was not found ({conv_names})")
+    JCONV = conv_names[0]
+    for q, want in ((JCONV, ["int", "float", "id"]), ("_str_or_float", ["float", "id"])):
         ff, flow = fn(ss, DEC, q)
         got = _chain(ff.node, ff.params[0])
         k = ckey(ff, None, "chain")
@@ -455,7 +471,7 @@ def c07_6(ctx, ss):
                 ctx.undecided("C07.6", kx, where(ff, comp[0]), f"JetSet name pattern: {e}")
     else:
         raise AnchorMissing("get_jetset_definitions: the compiled name pattern was not found")
-    calls = [c for c in pf.calls_in(ff.node, nested=False) if isinstance(c.func, ast.Name) and c.func.id == "to_int_or_float"]
+    calls = [c for c in pf.calls_in(ff.node, nested=False) if isinstance(c.func, ast.Name) and c.func.id == JCONV.split(".")[-1]]
     if len(calls) < 1:
         ctx.violation("C07.6", ckey(ff, None, "applied"), where(ff, ff.node), "JetSet values no longer go through to_int_or_float")
     else:
